@@ -40,10 +40,16 @@ PROPS = {
             "level_note": "floats as reals; pandas constructors trusted; detectors' class glue (_predict wiring) bounded unless listed under functions_under_contract; "
                           "one recorded known finding (KF1)"},
     "C05": {"category": "exploration", "driver": "C05", "claimed": True,
-            "technique": "bounded exhaustive run-time check of the six sparse/dense converters and transform over all valid sparse outputs x index types",
+            "technique": "bounded exhaustive run-time check of the six sparse/dense converters and transform over all valid sparse outputs x index types; "
+                         "the two NumPy labelling loops (ChangeDetector.sparse_to_dense, SubsetCollectiveAnomalyDetector.sparse_to_dense) are "
+                         "additionally under contract (own AST->VC generator, z3/cvc5) with the pandas accessors around them assumed",
             "level_text": "Every valid sparse output for n<=5 (thorough 7), all index types of the quantifier and column labels; round trip and positional "
-                          "labelling. The code is pandas label/position glue: contracts are checked at run time only (DESIGN 10-C05).",
-            "level_note": "pandas semantics is the trusted part, so no proof is attempted"},
+                          "labelling (bounded). Proved for all inputs on the real code: position t gets the number of changepoints <= t "
+                          "(ChangeDetector.sparse_to_dense); cell (t, c) gets label a+1 iff t lies in anomaly a and c is one of its columns, 0 elsewhere "
+                          "(SubsetCollectiveAnomalyDetector.sparse_to_dense). The other four converters and transform are pandas label/position glue: "
+                          "run-time only. The claim stays at the bounded level because the index/label clauses are decided by the bounded tier alone.",
+            "level_note": "pandas semantics (frame column access, IntervalIndex left/right/closed, len(index), DataFrame constructor) is assumed in the two "
+                          "proved loops and trusted elsewhere"},
     "C06": {"category": "proof", "driver": "C06", "claimed": True,
             "technique": "contract-based deductive verification of the adapters against the scorer interface contract and of the direct scores against the data "
                          "spec functions (z3/cvc5, algebraic lemmas) + exhaustive bounded comparison incl. user-defined costs",
@@ -138,7 +144,7 @@ PROPS = {
                           "k = len(cols) is the first maximiser of CUMPEN(k) = sum_{r<=k}(SORTV(r) - beta_r) - alpha, where (alpha, beta) are proved to be the "
                           "SPARSE penalty for collective anomalies (whatever collective_penalty is) and the POINT penalty for point anomalies "
                           "(run_mvcapa, all 16 penalty-kind combinations); MVCAPA._predict merges, sorts and forwards exactly these triples. "
-                          "'transform marks exactly these columns' (pandas labelling) is bounded only.",
+                          "'transform marks exactly these columns': the labelling loop SubsetCollectiveAnomalyDetector.sparse_to_dense is proved (label a+1 exactly on the anomaly's rows x listed columns, 0 elsewhere); BaseDetector.transform's pandas wiring is bounded.",
             "level_note": "axiom AX_sorted_unique (uniqueness of the sorted rearrangement; its premises are proved at the use site); CUMPEN / SORTV / BETA are spec "
                           "functions defined by recurrence / naming; numpy argsort / cumsum / argmax contracts assumed; floats as reals (ties excluded by margin "
                           "in the statement); p=1 and the pandas frame / dense labelling bounded"},
